@@ -44,4 +44,14 @@ theorem ack_revalidates :
     rfl rfl rfl ex_isaDef (by decide +kernel) rfl
     ex_shape ex_defs ex_keys ex_wf ex_unamb
 
+/-- the hypotheses of `ack997_ak402_not_echo` hold for it as well: both AK402 (`1`) are the writer's own -/
+theorem ak402_not_echo : ∀ x ∈ ((ack997 fixed st params).out.drop 2), x.id = sAK4 → ∀ c, (toSeg x).elems[1]? = some c →
+    (kindOf x.id).own 1 c = true ∧
+      (c = [[]] ∨ ∃ r, c = [r] ∧ 1 ≤ r.length ∧ r.length ≤ 4 ∧ ∀ ch ∈ r, '0' ≤ ch ∧ ch ≤ '9') := by
+  have hC := complete_of_b st (by decide +kernel)
+  obtain ⟨_, _, isa, gs, _, _, _, _, hout, _⟩ := ack997_written st params hC
+  rw [hout]
+  exact ack997_ak402_not_echo st params hC (echoSafe_of_b st params (by decide +kernel))
+    (refNumsFit_of_b st (by decide +kernel)) isa gs _ hout
+
 end Pyx12Verif.C06R.Ex
